@@ -77,7 +77,7 @@ def model_check(ck, tier, workers):
                                  "about the code):\n%s" % (cfg, res.out[-4000:]))
         # the model of the code as it is must exhibit both known deviations
         for site, cls in DEVIATIONS:
-            if not re.search(r'"DEVIATION",\s*"%s",\s*"%s"' % (re.escape(site), re.escape(cls)), res.out):
+            if ('"DEVIATION|%s|%s|' % (site, cls)) not in res.out:
                 if cfg.endswith("Q.cfg") and site == "barycentric_eval":
                     continue        # family not explored in this configuration
                 raise vlib.ToolError("PolyMC/%s did not exhibit the modelled deviation %s/%s "
@@ -94,11 +94,14 @@ def judge_trace(ck, path, events, workers, timeout, label="TraceKernels"):
     ck.add_tlc(tv, label, {"field": "BLS12-381 scalar field (BigF)", "events": len(events)},
                exhaustive=False)
     verdicts = {}
-    for m in re.finditer(r'<<"(VERDICT|MISMATCH)",\s*(\d+),\s*"([^"]+)",\s*"([^"]+)">>', tv.out):
-        i = int(m.group(2))
+    for l in tv.out.splitlines():
+        if not (l.startswith('"VERDICT|') or l.startswith('"MISMATCH|')):
+            continue
+        f = l.strip('"').split("|")
+        i = int(f[1])
         if i in verdicts:
             raise vlib.ToolError("event %d judged twice" % i)
-        verdicts[i] = (m.group(1), m.group(3), m.group(4))
+        verdicts[i] = (f[0], f[2], f[3])
     ids = set(e["id"] for e in events)
     if set(verdicts) != ids:
         raise vlib.ToolError("TraceKernels judged %d of %d events (missing %s)\n%s"
@@ -139,8 +142,12 @@ def account(ck, events, verdicts):
                        "digest": e.get("digest"), "verdict": cls}, limit=8)
     for (site, cls), ids in groups.items():
         first = by_id[ids[0]]
+        head = {k: first[k] for k in ("id", "kern", "cls", "nc", "res", "threads", "deg", "rows") if k in first}
+        for k in ("a", "b", "out"):
+            if isinstance(first.get(k), dict):
+                head["len(%s)" % k] = len(first[k].get("l", first[k].get("s", [])))
         what = (WHAT.get(cls, WHAT["other"]) % site) + \
-            " - %d recorded call(s), e.g. %s" % (len(ids), json.dumps(_slim(first))[:600])
+            " - %d recorded call(s), e.g. %s" % (len(ids), json.dumps(head))
         ck.violation(what, {"key": {"site": site, "class": cls},
                             "event": first, "event_ids": ids[:50], "count": len(ids),
                             "replay_cmd": "bin/check C19 --replay <this file>"})
